@@ -261,6 +261,10 @@ def u_mean(ctx, weighted):
             ctx.assume(sigma.total(lambda t: w._elem(t), n.t, "A") != 0, "pre:non-zero total weight")
         res = expect_no_exception(ctx, call(type(p).mean, p, w), "C14/mean")
     v = expect_no_exception(ctx, call(type(p).to_3d, p), "C14/mean")
+    if "xyz" not in got:
+        from pyvc.core import Unsupported
+        raise Unsupported("mean() did not hand a mean vector to from_3d on this path: the contract (result = from_3d(mean vector), which also "
+                          "wraps the right ascension into [0, 2pi)) has to be restated for the new code; the floating-point grid decides")
     m = got["xyz"]
     ctx.check("C14/mean/post:result_is_from_3d_of_the_mean_vector", res == "MEAN" and m.ndim == 1 and bool(m.shape[0] == 3))
     for k in range(3):
@@ -404,6 +408,17 @@ def bounded(opts):
             if err > tol:
                 bad("mean", dict(centre=centre, weighted=weights is not None), [float(a) for a in got], [float(b) for b in unit_],
                     f"{tol:.3e} (64 ulp + conditioning of arcsin/arccos)")
+    # right ascension in [0, 2pi) for every result, also for sets of one or two points given outside the principal range
+    for ras_in in ([-0.3], [7.85], [2 * np.pi], [-0.3, -0.2], [6.4, 6.5], [-4.0], [13.0, 13.1, 13.2]):
+        for weights in (None, np.linspace(1.0, 2.0, len(ras_in))):
+            pts_in = np.column_stack([ras_in, np.linspace(0.1, 0.2, len(ras_in))])
+            m = AngularCoordinates(pts_in).mean(weights)
+            evals += 1
+            nontrivial += 1
+            ra_out = float(np.atleast_1d(m.ra)[0])
+            want = float(np.mean(ras_in) % (2 * np.pi))
+            if not (0.0 <= ra_out < 2 * np.pi) or min(abs(ra_out - want), 2 * np.pi - abs(ra_out - want)) > 0.2:
+                bad("mean_ra_range", dict(ra=ras_in, weighted=weights is not None), ra_out, f"in [0, 2pi), near {want}", "range")
     return dict(kind="bounded", bound=f"{len(pts)} positions (12 right ascensions incl. 0, pi, 2pi-, 20 declinations incl. both poles +- 1e-300..1e-3), "
                 f"{len(bases) * len(seps)} pairs with separations 0..pi incl. 1e-15 and pi-1e-8, 441 angles for the chord/angle maps, 8 clusters for the mean; "
                 "reference: mpmath with 50 digits", evaluations=evals, distinct_nontrivial=nontrivial, violations=viol,
